@@ -38,4 +38,54 @@ def doubleFrac (s e m : Int) : Int × Int :=
   else if e ≥ 1075 then (sg * (4503599627370496 + m) * 2 ^ (e - 1075).toNat, 1)
   else (sg * (4503599627370496 + m), 2 ^ (1075 - e).toNat)
 
+-- ---- NoReduce mode: the pair an operation stores (closed formulas; positive denominators) -----------------------------
+/-- `a/b + c/d = (ad + cb)/(bd)`, no gcd; a zero operand returns the other operand unchanged, two integers give an integer -/
+def addNR (a b : QRep) : QRep :=
+  if b.num = 0 then a else if a.num = 0 then b
+  else if a.den = 1 ∧ b.den = 1 then ⟨a.num + b.num, 1⟩
+  else ⟨a.num * b.den + b.num * a.den, a.den * b.den⟩
+def subNR (a b : QRep) : QRep :=
+  if b.num = 0 then a else if a.num = 0 then ⟨-b.num, b.den⟩
+  else if a.den = 1 ∧ b.den = 1 then ⟨a.num - b.num, 1⟩
+  else ⟨a.num * b.den - b.num * a.den, a.den * b.den⟩
+/-- `a/b * c/d = (ac)/(bd)`; a zero factor gives `0/1`, the factor `1/1` returns the other operand -/
+def mulNR (a b : QRep) : QRep :=
+  if b.num = 0 ∨ a.num = 0 then ⟨0, 1⟩
+  else if b.num = 1 ∧ b.den = 1 then a else if a.num = 1 ∧ a.den = 1 then b
+  else if a.den = 1 ∧ b.den = 1 then ⟨a.num * b.num, 1⟩
+  else ⟨a.num * b.num, a.den * b.den⟩
+/-- `(a/b) / (c/d) = (ad)/(bc)` with the sign moved to the numerator (`c ≠ 0`).  With equal denominators the code calls the
+    *reducing* constructor `Rational(a, c)`: the one gcd taken although the mode says not to. -/
+def divNR (a b : QRep) : QRep :=
+  if a.num = 0 then ⟨0, 1⟩
+  else if b.num = 1 ∧ b.den = 1 then a
+  else if a.num = 1 ∧ a.den = 1 then (if b.num < 0 then ⟨-b.den, -b.num⟩ else ⟨b.den, b.num⟩)
+  else if a.den = b.den then normalize a.num b.num
+  else if 0 < b.num then ⟨a.num * b.den, a.den * b.num⟩ else ⟨-(a.num * b.den), -(a.den * b.num)⟩
+/-- `*=` differs from `*` in one stored pair: `0/d *= x` leaves `0/d` -/
+def mulinNR (a b : QRep) : QRep :=
+  if b.num ≠ 0 ∧ a.num = 0 then a else mulNR a b
+/-- `/=` differs from `/` in one stored pair: `0/d /= x` leaves `0/d` -/
+def divinNR (a b : QRep) : QRep :=
+  if a.num = 0 then a else divNR a b
+
+/-- value of the IEEE-754 bit pattern `bits` (`prec` significand bits incl. the hidden one, `eb` exponent bits) as a fraction
+    `(num, den)`; `none` for zero, subnormal and non-finite patterns -/
+def ieeeFrac (prec eb : Nat) (bits : Int) : Option (Int × Int) :=
+  let sgn : Int := if bits / 2 ^ (prec - 1 + eb) % 2 = 1 then -1 else 1
+  let E := bits / 2 ^ (prec - 1) % 2 ^ eb
+  let m := bits % 2 ^ (prec - 1) + 2 ^ (prec - 1)
+  let bias : Int := 2 ^ (eb - 1) - 1
+  let ex := E - bias - (prec - 1 : Nat)
+  if E = 0 ∨ E = 2 ^ eb - 1 then none
+  else if ex ≥ 0 then some (sgn * m * 2 ^ ex.toNat, 1) else some (sgn * m, 2 ^ (-ex).toNat)
+
+/-- checker for a conversion to floating point: `bits` is a normal number within relative distance `2^-k` of `n/d`
+    (`d > 0`); `+0.0` for `n = 0` -/
+def floatCheck (prec eb k : Nat) (n d : Int) (bits : Int) : Bool :=
+  if n = 0 then bits == 0 else
+  match ieeeFrac prec eb bits with
+  | some (vn, vd) => iabs (vn * d - n * vd) * 2 ^ k ≤ iabs n * vd      -- |vn/vd - n/d| ≤ 2^-k |n/d|
+  | none => false
+
 end Givaro.Spec.Rational
